@@ -3,6 +3,7 @@ C09 — tables are delivered only with a valid CRC_32; muxed sections carry a va
 -/
 import Astits.Props.C10
 import Astits.Proofs.CRCBurst
+import Astits.Proofs.CRCInj
 import Astits.Model.PSI
 import Astits.Generated.Exprs
 import Astits.Proofs.PSIVerdict
@@ -113,6 +114,54 @@ theorem corrupted_section_rejected (sec : List Bool) (a t : Nat) (b : List Bool)
   have := burst32_detected 0xFFFFFFFF#32 sec a t b hb hlen
   rw [hvalid] at this
   exact this
+
+/-! #### nothing that follows a damaged prefix can mask the damage
+
+The table-driven step of the code is a bijection of the register for every input byte (no hypothesis on the byte:
+the Go code and the model reduce it mod 256), so the checksum of `p ++ s` and of `p' ++ s` agree exactly when those of
+`p` and `p'` do — for prefixes of ANY two lengths.  Together with `burst32_detected` (which settles the register right
+after the damaged bits) this is why the position of a burst inside a section does not matter. -/
+
+/-- one table-driven step is injective in the register, whatever the byte -/
+theorem crcStep_inj (c d : BitVec 32) (b : Nat) (h : crcStep c b = crcStep d b) : c = d := by
+  rw [C10.crcStep_mod c b, C10.crcStep_mod d b,
+    C10.step_eq_spec c _ (Nat.mod_lt _ (by decide)), C10.step_eq_spec d _ (Nat.mod_lt _ (by decide))] at h
+  exact feedByte_inj _ _ _ h
+
+/-- running the code's checksum update over the same bytes from two registers gives the same result only when the
+registers were equal -/
+theorem update_inj (c d : BitVec 32) (bs : Bytes) (h : updateCRC32 c bs = updateCRC32 d bs) : c = d := by
+  induction bs generalizing c d with
+  | nil => exact h
+  | cons b r ih =>
+    simp only [updateCRC32, List.foldl_cons] at h ih
+    exact crcStep_inj _ _ b (ih _ _ h)
+
+/-- **a common suffix never masks a difference**: for any two prefixes (of any lengths) and any suffix, the checksums
+of `p ++ s` and `p' ++ s` are equal iff those of `p` and `p'` are -/
+theorem suffix_never_masks (p p' s : Bytes) :
+    computeCRC32 (p ++ s) = computeCRC32 (p' ++ s) ↔ computeCRC32 p = computeCRC32 p' := by
+  unfold computeCRC32
+  rw [C10.update_append, C10.update_append]
+  exact ⟨update_inj _ _ s, fun h => by rw [h]⟩
+
+/-- a section with residue 0 whose leading part is replaced by bytes (more, fewer or as many) with a different
+checksum is rejected: its residue is not 0 -/
+theorem damaged_prefix_rejected (p p' s : Bytes) (hvalid : computeCRC32 (p ++ s) = 0#32)
+    (hdiff : computeCRC32 p' ≠ computeCRC32 p) : computeCRC32 (p' ++ s) ≠ 0#32 := by
+  intro h
+  exact hdiff ((suffix_never_masks p' p s).mp (h.trans hvalid.symm))
+
+/-- the stored CRC_32 determines the checksum of the body: two bodies followed by the SAME four CRC bytes cannot both
+be accepted unless their checksums agree -/
+theorem same_crc_field_same_checksum (b b' : Bytes) (stored : BitVec 32)
+    (h : computeCRC32 (b ++ be32 stored) = 0#32) (h' : computeCRC32 (b' ++ be32 stored) = 0#32) :
+    computeCRC32 b = computeCRC32 b' :=
+  (suffix_never_masks b b' (be32 stored)).mp (h.trans h'.symm)
+
+-- the premises are satisfiable and the conclusion is not trivial: a valid 2+4-byte unit, a different prefix
+example : computeCRC32 ([0x12, 0x34] ++ be32 (computeCRC32 [0x12, 0x34])) = 0#32 ∧
+    computeCRC32 [0x12, 0x35, 0x00] ≠ computeCRC32 [0x12, 0x34] := by decide +kernel
 
 example : crcBit 0x80000000#32 = 0x04C11DB7#32 := by decide
 example : xorBits [true, false, true] [false, true, true] = [true, true, false] := by decide
